@@ -27,11 +27,12 @@ import (
 	"github.com/hashicorp/consul/proto-public/pbresource"
 	"github.com/hashicorp/consul/proto/private/pbpeering"
 	"github.com/hashicorp/consul/proto/private/pbstorage"
+	"github.com/hashicorp/consul/types"
 )
 
 // FCfg weights the command families of a log.
 type FCfg struct {
-	Base, ACL, Intention, CA, Autopilot, FedState, FeatureGate, Peering, ManualVIP, DeprecatedACL, Resource, SysMeta, TxnExtra, ConfigExtra int
+	Base, ACL, Intention, CA, Autopilot, FedState, FeatureGate, Peering, ManualVIP, DeprecatedACL, Resource, SysMeta, TxnExtra, ConfigExtra, BoundSession int
 	BaseCfg                                                                                                                 *Cfg
 }
 
@@ -67,7 +68,7 @@ var Focuses = []string{"", "", "vip", "vip", "acl", "peering", "intention", "ca"
 // DefaultFCfg is the mix used by C01 and C02.
 func DefaultFCfg() *FCfg {
 	return &FCfg{
-		Base: 46, ACL: 15, Intention: 7, CA: 6, Autopilot: 2, FedState: 3, FeatureGate: 2, Peering: 8, ManualVIP: 6, DeprecatedACL: 1, Resource: 3, SysMeta: 3, TxnExtra: 2, ConfigExtra: 4,
+		Base: 46, ACL: 15, Intention: 7, CA: 6, Autopilot: 2, FedState: 3, FeatureGate: 2, Peering: 8, ManualVIP: 6, DeprecatedACL: 1, Resource: 3, SysMeta: 3, TxnExtra: 2, ConfigExtra: 4, BoundSession: 3,
 		BaseCfg: &Cfg{KV: 22, Session: 8, Reap: 2, Catalog: 28, Dereg: 8, Txn: 10, PQ: 4, Config: 12, Coord: 3, SysMeta: 2, Killer: 3,
 			TxnCatalog: true, Peers: true, Connect: true, Rename: true, SessionChecks: true, MaxTxnOps: 4},
 	}
@@ -125,6 +126,7 @@ func (w *FWorld) DrawCmd(t *rapid.T, cfg *FCfg) *FCmd {
 		{cfg.SysMeta, func() *FCmd { return w.DrawSysMetaCmd(t) }},
 		{cfg.TxnExtra, func() *FCmd { return w.DrawTxnExtra(t) }},
 		{cfg.ConfigExtra, func() *FCmd { return w.DrawConfigExtra(t) }},
+		{cfg.BoundSession, func() *FCmd { return w.DrawBoundSession(t) }},
 	}
 	total := 0
 	for _, f := range fams {
@@ -1392,6 +1394,52 @@ func (w *FWorld) DrawConfigExtra(t *rapid.T) *FCmd {
 		e.GetRaftIndex().ModifyIndex = pick(t, "cexcas2", []uint64{ci, ci, ci + 1, 0})
 	}
 	c, err := FromOp(NewConfig(kind, w.NextIdx(t), op, e))
+	if err != nil {
+		return nil
+	}
+	return c
+}
+
+
+// DrawBoundSession creates a session bound to a live, non-critical health check of its node (registering such a
+// check first when there is none): the sessions whose fate depends on the session-check links.
+func (w *FWorld) DrawBoundSession(t *rapid.T) *FCmd {
+	type cand struct {
+		node  string
+		check *structs.HealthCheck
+	}
+	var cands []cand
+	for _, n := range w.LiveNodes("") {
+		for _, c := range w.NodeChecks(n.Node, "") {
+			if c.Status != "critical" {
+				cands = append(cands, cand{n.Node, c})
+			}
+		}
+	}
+	if len(cands) == 0 {
+		node := pick(t, "bsnode", Nodes)
+		chk := &structs.HealthCheck{Node: node, CheckID: types.CheckID(pick(t, "bscheck", []string{"c1", "c2"})), Status: "passing", EnterpriseMeta: defaultEM}
+		chk.Name = string(chk.CheckID)
+		reg := &structs.RegisterRequest{Datacenter: fsmDC, Node: node, ID: NodeIDs[node], Address: "10.0.0." + node[1:], Checks: structs.HealthChecks{chk}, EnterpriseMeta: defaultEM}
+		c, err := FromOp(NewRegister(w.NextIdx(t), reg))
+		if err != nil {
+			return nil
+		}
+		return c
+	}
+	id, ok := w.freshSessionID(t)
+	if !ok {
+		return nil
+	}
+	w.SessUsed[id] = true
+	cd := pick(t, "bscand", cands)
+	sess := &structs.Session{ID: id, Node: cd.node, Name: pick(t, "bsname", SessionNames), Behavior: pick(t, "bsbehavior", []structs.SessionBehavior{structs.SessionKeysRelease, structs.SessionKeysDelete}), EnterpriseMeta: defaultEM}
+	if cd.check.ServiceID != "" && chance(t, "bsassvc", 50) {
+		sess.ServiceChecks = []structs.ServiceCheck{{ID: string(cd.check.CheckID)}}
+	} else {
+		sess.NodeChecks = []string{string(cd.check.CheckID)}
+	}
+	c, err := FromOp(NewSessCreate(w.NextIdx(t), sess))
 	if err != nil {
 		return nil
 	}
